@@ -23,7 +23,7 @@ for d in dirs:
         res = {}
         for c in (armed if allchecks else (forced or [prop])):
             if c not in armed: res[c] = "n/a"; continue
-            q = sh("/verif/vcheck", c, cwd="/verif")
+            q = sh("/verif/vcheck", c, cwd="/verif", env=dict(os.environ, VSA_EVID="/tmp/trymut-evid"))
             res[c] = {0: "pass", 1: "VIOL", 2: "ERR"}.get(q.returncode, str(q.returncode))
             if (c == prop or c in forced) and q.returncode == 1:
                 first = [l for l in q.stdout.splitlines() if l.startswith("  ")][:1]
